@@ -637,6 +637,17 @@ func genC16(g engine.G) *engine.Case {
 			}
 			x.Opts = append(x.Opts, e)
 		}
+		if p.Named() && p.Sub != "" && g.Pct(40) {
+			// a value under the SAME name and ANOTHER subtype label: a key of
+			// its own, which nobody asks for and which must not disturb the
+			// values stored under the parameter's key
+			tok++
+			e := OptEntry{L: p, Tok: tok}
+			e.L.Tag = false
+			e.L.Sub = engine.Pick(g, []string{"u", "v1", p.Sub + "2"})
+			e.L.Spell = caseVariant(g, p.Name)
+			x.Opts = append(x.Opts, e)
+		}
 	}
 	x.Opts = rapidPerm(g, x.Opts)
 	for i := range x.Opts {
